@@ -18,6 +18,8 @@ BLOCK_STARTS = [
     ('tab', re.compile(r'\t')),
 ]
 SETEXT = re.compile(r' {0,3}(=+|-+)[ \t]*$')
+# GFM table delimiter row: cells holding only hyphens with optional leading/trailing colon; a table needs one on line >= 2
+DELIMITER_ROW = re.compile(r'^\s*\|?\s*:?-+:?\s*(\|\s*:?-+:?\s*)*\|?\s*$')
 ENTITY = re.compile(r'&(#[0-9]{1,7}|#[xX][0-9a-fA-F]{1,6}|[A-Za-z][A-Za-z0-9]{0,31});')
 ENTITY_LOOSE = re.compile(r'&([^\t\n\f <&#;]{1,32});')
 
@@ -32,8 +34,8 @@ def why_not_inert(lines):
                 return 'block:' + name
         if i > 0 and SETEXT.match(l):
             return 'setext-underline'
-        if '|' in l and len(lines) > 1:
-            return 'table-candidate'
+        if i > 0 and '-' in l and DELIMITER_ROW.match(l):
+            return 'table-delimiter-row'
         if l.endswith('  '):
             return 'hard-break'
         if l.endswith('\\') and i < len(lines) - 1:
